@@ -1,34 +1,40 @@
 ----------------------------- MODULE LayerQueue -----------------------------
 (* Implementation-shaped model of mitmproxy/proxy/layer.py: Layer.handle_event / __process / __continue and
-   NextLayer, for the stack  NextLayer -> Router -> children.
+   NextLayer, for the stack  NextLayer -> Router R -> children.
 
    A feed (one call of the top layer's handle_event) is synchronous in the code, so it is one action here; what
    happens inside it is computed by the operators below, which follow the code:
-     Deliver  = Layer.handle_event            (queue while paused, else run the handler)
-     RunSteps = __process                     (run the generator to the next blocking yield or to its end)
-     Resume   = __continue                    (send the reply into the paused generator, then drain the queue
-                                               until paused again)
-     NextLayer: events buffered in events until an ask chooses a layer; while the next_layer hook is pending,
-     events wait in NextLayer's own paused-event queue; after the choice the buffered events are replayed, then the
-     queued ones are handed to the chosen layer by the same drain loop (the three re-assignments).
+     Deliver  = Layer.handle_event of a child  (queue while paused, else run the handler)
+     RunSteps = __process                      (run the generator to the next blocking yield or to its end)
+     Resume   = __continue                     (send the reply into the paused generator, then drain the queue
+                                                until paused again)
+     RPush    = Layer.handle_event of the router R: R is itself a Layer; while it waits for the completion of a
+                command of its own, EVERYTHING that arrives for it -- events for the children and completions of the
+                children's commands (a CommandCompleted that is not the awaited one) -- goes to R's paused-event
+                queue and is replayed, in order, when R resumes (RDrain).
+     NextLayer: events buffered until an ask chooses a layer; while the next_layer hook is pending, events wait in
+     NextLayer's own paused-event queue; after the choice the buffered events are replayed, then the queued ones are
+     handed to the chosen layer by the same drain loop (the three re-assignments).
    A child's handler for event e follows script Scripts[e.s]: a sequence of "emit" (non-blocking command) and
-   "block" (blocking command) steps.                                                                   *)
+   "block" (blocking command) steps.  The router's handler for an event of its own blocks exactly once.          *)
 EXTENDS Mon_LayerQueue, TLC
 CONSTANTS MaxEvents, Scripts
 VARIABLES nl,        \* NextLayer: [phase: "fresh"|"asking"|"chosen", cmd, buffer, queue]
+          rt,        \* router: [paused, cur, queue];  queue items: [t |-> "ev", ev] | [t |-> "done", L, c, r]
           ch,        \* child layer state: [paused, cur, rest, queue]
           nextCmd, nextEv, mon, obs
-vars == <<nl, ch, nextCmd, nextEv, mon, obs>>
+vars == <<nl, rt, ch, nextCmd, nextEv, mon, obs>>
 
 Init == /\ nl = [phase |-> "fresh", cmd |-> 0, buffer |-> <<>>, queue |-> <<>>]
-        /\ ch = [L \in Layers |-> [paused |-> 0, cur |-> 0, rest |-> <<>>, queue |-> <<>>]]
+        /\ rt = [paused |-> 0, cur |-> 0, queue |-> <<>>]
+        /\ ch = [L \in Children |-> [paused |-> 0, cur |-> 0, rest |-> <<>>, queue |-> <<>>]]
         /\ nextCmd = 1 /\ nextEv = 1 /\ mon = MonInit /\ obs = <<>>
 
 Ended == obs = <<[k |-> "end"]>>
 Live == mon.bad = <<>> /\ ~Ended
 Emit(evs) == obs' = evs /\ mon' = FoldEvents(MonStep, mon, evs)
 
-\* w = [ch, nextCmd, out]: the part of the state a feed changes, plus the records it emits
+\* w = [ch, rt, nextCmd, out]: the part of the state a feed changes, plus the records it emits
 RECURSIVE RunSteps(_, _), Drain(_, _), Enter(_, _, _)
 RunSteps(w, L) ==
   LET c == w.ch[L] IN
@@ -48,11 +54,26 @@ Drain(w, L) ==
     ELSE w
 Deliver(w, ev) ==
   IF w.ch[ev.L].paused # 0 THEN [w EXCEPT !.ch[ev.L].queue = Append(@, ev)] ELSE Enter(w, ev.L, ev)
-RECURSIVE DeliverAll(_, _)
-DeliverAll(w, evs) == IF evs = <<>> THEN w ELSE DeliverAll(Deliver(w, Head(evs)), Tail(evs))
+ResumeChild(w, L, c, r) ==
+  RunSteps([w EXCEPT !.ch[L].paused = 0, !.out = Append(@, [k |-> "resume", L |-> L, c |-> c, r |-> r])], L)
 
-W0(first) == [ch |-> ch, nextCmd |-> nextCmd, out |-> <<first>>]
-Commit(w) == ch' = w.ch /\ nextCmd' = w.nextCmd /\ Emit(w.out)
+\* the router's own _handle_event for one item, when R is not paused
+Process(w, item) ==
+  IF item.t = "done" THEN ResumeChild(w, item.L, item.c, item.r)      \* command_sources routing
+  ELSE IF item.ev.L = "R"
+    THEN [w EXCEPT !.rt.cur = item.ev.id, !.rt.paused = w.nextCmd, !.nextCmd = @ + 1,
+                   !.out = @ \o <<[k |-> "enter", L |-> "R", e |-> item.ev.id],
+                                   [k |-> "block", L |-> "R", c |-> w.nextCmd]>>]
+  ELSE Deliver(w, item.ev)
+RPush(w, item) == IF w.rt.paused # 0 THEN [w EXCEPT !.rt.queue = Append(@, item)] ELSE Process(w, item)
+RECURSIVE RPushAll(_, _), RDrain(_)
+RPushAll(w, evs) == IF evs = <<>> THEN w ELSE RPushAll(RPush(w, [t |-> "ev", ev |-> Head(evs)]), Tail(evs))
+RDrain(w) == IF w.rt.paused = 0 /\ w.rt.queue # <<>>
+               THEN RDrain(Process([w EXCEPT !.rt.queue = Tail(@)], Head(w.rt.queue)))
+               ELSE w
+
+W0(first) == [ch |-> ch, rt |-> rt, nextCmd |-> nextCmd, out |-> <<first>>]
+Commit(w) == ch' = w.ch /\ rt' = w.rt /\ nextCmd' = w.nextCmd /\ Emit(w.out)
 
 Arrive(L, s) ==
   /\ Live /\ nextEv <= MaxEvents /\ nextEv' = nextEv + 1
@@ -60,13 +81,13 @@ Arrive(L, s) ==
          rec == [k |-> "arrive", L |-> L, e |-> nextEv]
      IN CASE nl.phase = "fresh" ->      \* NextLayer._handle_event: buffer, then _ask()
                /\ nl' = [nl EXCEPT !.phase = "asking", !.cmd = nextCmd, !.buffer = Append(@, ev)]
-               /\ nextCmd' = nextCmd + 1 /\ UNCHANGED ch
+               /\ nextCmd' = nextCmd + 1 /\ UNCHANGED <<ch, rt>>
                /\ Emit(<<rec, [k |-> "ask", c |-> nextCmd]>>)
           [] nl.phase = "asking" ->     \* Layer.handle_event while paused on the hook
                /\ nl' = [nl EXCEPT !.queue = Append(@, ev)]
-               /\ UNCHANGED <<ch, nextCmd>> /\ Emit(<<rec>>)
+               /\ UNCHANGED <<ch, rt, nextCmd>> /\ Emit(<<rec>>)
           [] nl.phase = "chosen" ->
-               /\ UNCHANGED nl /\ Commit(Deliver(W0(rec), ev))
+               /\ UNCHANGED nl /\ Commit(RPush(W0(rec), [t |-> "ev", ev |-> ev]))
 
 \* completion of the next_layer hook; the addon either chose a layer or did not
 AskDone(choose) ==
@@ -74,29 +95,41 @@ AskDone(choose) ==
   /\ LET rec == [k |-> "ask_done", c |-> nl.cmd, chosen |-> choose] IN
      IF choose
        THEN /\ nl' = [nl EXCEPT !.phase = "chosen", !.buffer = <<>>, !.queue = <<>>]
-            /\ Commit(DeliverAll(DeliverAll(W0(rec), nl.buffer), nl.queue))
+            /\ Commit(RPushAll(RPushAll(W0(rec), nl.buffer), nl.queue))
        ELSE IF nl.queue = <<>>
-         THEN /\ nl' = [nl EXCEPT !.phase = "fresh"] /\ UNCHANGED <<ch, nextCmd>> /\ Emit(<<rec>>)
+         THEN /\ nl' = [nl EXCEPT !.phase = "fresh"] /\ UNCHANGED <<ch, rt, nextCmd>> /\ Emit(<<rec>>)
          ELSE \* drain loop pops one queued event into NextLayer._handle_event, which asks again
               /\ nl' = [nl EXCEPT !.buffer = Append(@, Head(nl.queue)), !.queue = Tail(@), !.cmd = nextCmd]
-              /\ nextCmd' = nextCmd + 1 /\ UNCHANGED ch
+              /\ nextCmd' = nextCmd + 1 /\ UNCHANGED <<ch, rt>>
               /\ Emit(<<rec, [k |-> "ask", c |-> nextCmd]>>)
 
-\* the environment completes the blocking command child L waits for
+\* the environment completes the blocking command child L waits for (at most once per command)
+InFlight(c) == \E i \in 1..Len(rt.queue) : rt.queue[i].t = "done" /\ rt.queue[i].c = c
 Complete(L) ==
-  /\ Live /\ ch[L].paused # 0 /\ UNCHANGED <<nl, nextEv>>
+  /\ Live /\ ch[L].paused # 0 /\ ~InFlight(ch[L].paused) /\ UNCHANGED <<nl, nextEv>>
   /\ LET c == ch[L].paused
          r == 10 + c
+     IN Commit(RPush(W0([k |-> "complete", c |-> c, r |-> r]), [t |-> "done", L |-> L, c |-> c, r |-> r]))
+
+\* ... or the router's own command: the paused router generator finishes, then R's queue is drained
+CompleteR ==
+  /\ Live /\ rt.paused # 0 /\ UNCHANGED <<nl, nextEv>>
+  /\ LET c == rt.paused
+         r == 10 + c
          w == [W0([k |-> "complete", c |-> c, r |-> r]) EXCEPT
-                 !.ch[L].paused = 0, !.out = Append(@, [k |-> "resume", L |-> L, c |-> c, r |-> r])]
-     IN Commit(RunSteps(w, L))
+                 !.rt.paused = 0, !.rt.cur = 0,
+                 !.out = @ \o <<[k |-> "resume", L |-> "R", c |-> c, r |-> r],
+                                 [k |-> "exit", L |-> "R", e |-> rt.cur]>>]
+     IN Commit(RDrain(w))
 
 Finish == /\ Live
-          /\ UNCHANGED <<nl, ch, nextCmd, nextEv>> /\ Emit(<<[k |-> "end"]>>)
+          /\ UNCHANGED <<nl, rt, ch, nextCmd, nextEv>> /\ Emit(<<[k |-> "end"]>>)
 
-Next == \/ \E L \in Layers, s \in 1..Len(Scripts) : Arrive(L, s)
+Next == \/ \E L \in Children, s \in 1..Len(Scripts) : Arrive(L, s)
+        \/ Arrive("R", 1)
         \/ \E b \in BOOLEAN : AskDone(b)
-        \/ \E L \in Layers : Complete(L)
+        \/ \E L \in Children : Complete(L)
+        \/ CompleteR
         \/ Finish
 Spec == Init /\ [][Next]_vars
 Report == mon.bad # <<>> => PrintT(<<"BAD", mon.bad>>)
